@@ -12,6 +12,7 @@ import (
 	"sort"
 	"strings"
 	"sync"
+	"sync/atomic"
 	"time"
 
 	"github.com/kercylan98/vivid"
@@ -135,6 +136,7 @@ func runLifeScenario(sc *lifeScenario, schedule []lifeStep, seed int64) *lifeRun
 	}
 	started := false
 	cancelled := false
+	var stopping atomic.Bool
 	names := make([]string, 0, len(sc.Script))
 	for n := range sc.Script {
 		names = append(names, n)
@@ -154,6 +156,10 @@ func runLifeScenario(sc *lifeScenario, schedule []lifeStep, seed int64) *lifeRun
 						mu.Lock()
 						started = true
 						mu.Unlock()
+					}
+					// The actor tree is created only while no stop is under way: spawning from outside the system
+					// concurrently with its termination is not part of this property (that race belongs to C10/C06).
+					if err == nil && !stopping.Load() {
 						// a small tree: one parent with two children
 						_, _ = sys.ActorOf(vivid.ActorFN(func(actx vivid.ActorContext) {
 							if _, ok := actx.Message().(*vivid.OnLaunch); ok {
@@ -169,6 +175,7 @@ func runLifeScenario(sc *lifeScenario, schedule []lifeStep, seed int64) *lifeRun
 					ev(map[string]any{"e": "Ret", "p": name, "op": "stop", "r": classifyLifeErr(err)})
 				case "cancel":
 					c.Yield("h.cancel", sys, nil)
+					stopping.Store(true)
 					ev(map[string]any{"e": "Call", "p": name, "op": "cancel"})
 					cancel()
 					mu.Lock()
@@ -249,6 +256,9 @@ func runLifeScenario(sc *lifeScenario, schedule []lifeStep, seed int64) *lifeRun
 			run.Drift++
 			break
 		}
+		if w.Point == "sys.stop.kill" {
+			stopping.Store(true)
+		}
 		c.Release(w)
 		run.Steps++
 		if !settle(st.P) {
@@ -272,6 +282,9 @@ func runLifeScenario(sc *lifeScenario, schedule []lifeStep, seed int64) *lifeRun
 		idle = 0
 		sort.Slice(ws, func(i, j int) bool { return ws[i].Role < ws[j].Role })
 		w := ws[rng.Intn(len(ws))]
+		if w.Point == "sys.stop.kill" {
+			stopping.Store(true)
+		}
 		c.Release(w)
 		run.Steps++
 		if !settle(w.Role) {
